@@ -61,13 +61,17 @@ QUERIES = ["cov_mat", "cor_mat", "hessian", "hessian_inv", "asymmetric_errors", 
 REMINIMISING = {"asymmetric_errors", "profile_sigma", "profile_cl_arrows", "profile_lowhigh", "profile_default", "contour", "cp_get_profile", "cp_get_contours", "report_asym", "result_dict_asym"}
 
 
+CONTOUR_KWARGS = {}  # of the case being run
+LAST_CONTOUR = []
+
+
 def floors(tier):
     return {
         "comparisons": {"drift.parameter_values": 150, "drift.cost": 150, "drift.parameter_errors": 150, "did_fit": 150, "fixed-limited": 150, "minimizer==graph": 150, "idempotent": 40, "drift.after-failed-query": 10, "minimizer==graph.after-limit_parameter": 60},
         "ops": [q for q in QUERIES],
         "reach": ["%s:%s" % a for a in ANCHORS],
         "sets": {"query_bigrams": 80},
-        "strata": ["iminuit", "scipy", "fixed", "limited", "xy", "indexed", "hist", "fault-injected:iminuit", "fault-injected:scipy", "fault-injected-before-first-read:iminuit", "fault-injected-before-first-read:scipy", "iterative-dynamic-errors:iminuit", "iterative-dynamic-errors:scipy"],
+        "strata": ["iminuit", "scipy", "fixed", "limited", "xy", "indexed", "hist", "fault-injected:iminuit", "fault-injected:scipy", "fault-injected-before-first-read:iminuit", "fault-injected-before-first-read:scipy", "iterative-dynamic-errors:iminuit", "iterative-dynamic-errors:scipy", "contour-algorithm:mncontour", "contour-algorithm:heuristic_grid", "contour-algorithm:beacon"],
         "distinct_nontrivial": 40,
     }
 
@@ -125,7 +129,7 @@ def gen_case(rng, tier, idx, shard, nshards):
             word.insert(i, word[i])
     # scipy contours are slow: at most one per word, and only in 1 of 4 scipy cases
     if minimizer == "scipy":
-        keep = (gi // 2) % 4 == 1
+        keep = ((gi // 2) + idx) % 4 == 1  # (shifted by idx: every shard and every fit type gets some)
         seen = False
         w2 = []
         for q in word:
@@ -135,6 +139,8 @@ def gen_case(rng, tier, idx, shard, nshards):
                 seen = True
             w2.append(q)
         word = w2
+        if keep and not seen:
+            word[int(rng.integers(0, len(word)))] = "contour"
     case = {"property": "C08", "spec": spec, "setup": setup, "fixed": fixed, "limited": limited, "word": word, "arg_seed": int(rng.integers(0, 2**31))}
     if gi % 5 == 4:
         # fault injection: the cost function raises at its k-th evaluation during one query (a model function that raises far from
@@ -142,6 +148,17 @@ def gen_case(rng, tier, idx, shard, nshards):
         case["fault"] = {"index": int(rng.integers(0, len(word))), "call": int(rng.choice([1, 2, 3, 5, 8, 13, 21, 34, 55]))}
         if (gi // 10) % 2 == 1:
             case["fault"].update(early=True, query=EARLY_QUERIES[(gi // 20) % len(EARLY_QUERIES)], call=int(rng.choice([1, 2, 3, 5, 8, 13])))
+    if minimizer == "scipy":
+        # the scipy backend has two contour algorithms with their own exits; "beacon" takes ~15 s per contour
+        k = (idx // 4 + shard // 2) % 8
+        case["contour_kwargs"] = [{}, {"algorithm": "beacon"}, {"iterations": 3}, {"initial_points": 2, "iterations": 2}, {}, {"iterations": 3}, {"iterations": 4, "area_scale_factor": 2.0}, {"initial_points": 3, "iterations": 1}][k]
+        if case["contour_kwargs"].get("algorithm") == "beacon" and "contour" in word:
+            # rare and expensive: asked first, and not spent on a case whose query is made to fail
+            word.remove("contour")
+            word.insert(0, "contour")
+            case.pop("fault", None)
+    elif (gi // 8) % 2:
+        case["contour_kwargs"] = {"numpoints": int(rng.integers(6, 30))}
     return case
 
 
@@ -244,11 +261,13 @@ def run_query(q, fit, rng, tmpdir, free):
             return ("refused", "none")
         others = [f for f in free if f != p1]
         p2 = others[int(rng.integers(0, len(others)))]
+        kw = dict(CONTOUR_KWARGS)
+        LAST_CONTOUR[:] = [kw.get("algorithm", "heuristic_grid" if type(fit._fitter.minimizer).__name__ == "MinimizerScipyOptimize" else "mncontour")]
         if q == "contour":
-            return summarize(fit._fitter.contour(p1, p2, sigma=float(rng.choice([1.0, 2.0]))))
+            return summarize(fit._fitter.contour(p1, p2, sigma=float(rng.choice([1.0, 2.0])), **kw))
         from kafe2.fit.tools.contours_profiler import ContoursProfiler
 
-        cp = ContoursProfiler(fit, contour_sigma_values=(1.0,))
+        cp = ContoursProfiler(fit, contour_sigma_values=(1.0,), contour_method_kwargs=kw or None)
         return summarize(cp.get_contours(p1, p2))
     if q == "cp_get_profile":
         from kafe2.fit.tools.contours_profiler import ContoursProfiler
@@ -373,6 +392,8 @@ def run_case(ctx, case):
     minimizer = spec["minimizer"]
     ctx.stratum(minimizer)
     ctx.stratum(spec["type"])
+    CONTOUR_KWARGS.clear()
+    CONTOUR_KWARGS.update(case.get("contour_kwargs") or {})
     if spec.get("dea") == "iterative" and any(gen.norm_axis(o[1].get("axis")) == "x" or (o[1].get("relative") and o[1].get("reference") == "model") for o in case["setup"]):
         ctx.stratum("iterative-dynamic-errors:" + minimizer)
     mb = Member(spec, case["setup"])
@@ -430,7 +451,7 @@ def run_case(ctx, case):
             if fault:
                 mini_obj._func_handle = FaultyHandle(genuine_handle, fault["call"], mini_obj.parameter_values)
             try:
-                with time_limit(60.0):
+                with time_limit(180.0 if CONTOUR_KWARGS.get("algorithm") == "beacon" else 60.0):
                     ans = run_query(q, fit, rng, tmpdir, free)
             except OpTimeout:
                 mini_obj._func_handle = genuine_handle
@@ -482,6 +503,8 @@ def run_case(ctx, case):
             mini_obj._func_handle = genuine_handle
             if fault:
                 ctx.note("fault-not-reached-or-swallowed")
+            if q in ("contour", "cp_get_contours") and LAST_CONTOUR and len(free) >= 2:
+                ctx.stratum("contour-algorithm:" + LAST_CONTOUR[0])
             nv = sum(ctx._wit_per_key.values())
             s = snapshot(fit)
             d = {"query": q, "index": i, "word": case["word"][: i + 1]}
